@@ -32,7 +32,9 @@ pub(crate) fn as_f64(value: &Value, lossy: bool) -> Option<f64> {
     macro_rules! checked {
         ($expr:expr, $ty:ty) => {{
             let rv = $expr as f64;
-            return if lossy || rv as $ty == $expr {
+            // a float that rounded up past the type's maximum converts back to
+            // that maximum (the cast saturates) and must not be taken for lossless.
+            return if lossy || (rv < <$ty>::MAX as f64 && rv as $ty == $expr) {
                 Some(rv)
             } else {
                 None
